@@ -1,5 +1,6 @@
 import Postcard.Model.EnumAt
 import Postcard.Props.C01
+import Postcard.Props.C04
 /-
   Postcard.Props.C01EnumAt — round trip for enums with ANY `u32` discriminant (sparse or wide:
   5-byte varints), decoded by a visitor that accepts that one discriminant.
@@ -67,6 +68,49 @@ theorem decEnumAt_eq_dec (pre : List Ty) (vt : Ty) (post : List Ty) (bs : List B
     by_cases hn : n = pre.length
     · subst hn
       simp [dec, hd, decVariant_skip]
+    · simp [hn]
+
+/-- **C03 / C04 transported to wide discriminants**: the one-discriminant visitor accepts exactly when the index
+varint decodes to `idx` and the derived enum with `idx` unit variants in front of `vt` accepts - so everything
+proved about `dec` (soundness and completeness against `Permitted`, prefix behaviour, named error kinds: C03;
+totality: C04) holds for it. -/
+theorem decEnumAt_ok_iff (idx : Nat) (vt : Ty) (bs : List Byte) (v : Val) (r : List Byte) :
+    decEnumAt idx vt bs = .ok (v, r) ↔
+      (∃ r0, decVarint 32 bs = .ok (idx, r0)) ∧
+        dec (.enum (List.replicate idx .unit ++ [vt])) bs = .ok (v, r) := by
+  have hskip := decVariant_skip (List.replicate idx .unit) vt [] idx
+  simp only [List.length_replicate] at hskip
+  unfold decEnumAt
+  cases hd : decVarint 32 bs with
+  | error e => simp [dec, hd]
+  | ok x =>
+    obtain ⟨n, r0⟩ := x
+    by_cases hn : n = idx
+    · subst hn
+      simp [dec, hd, hskip]
+    · simp only [hn, if_false]
+      constructor
+      · intro h; cases h
+      · rintro ⟨⟨r1, h1⟩, _⟩
+        simp only [Except.ok.injEq, Prod.mk.injEq] at h1
+        exact absurd h1.1 hn
+
+/-- never a panic, for any discriminant, shape and input. -/
+theorem decEnumAt_total (idx : Nat) (vt : Ty) (bs : List Byte) : decEnumAt idx vt bs ≠ .error .panic := by
+  have hskip := decVariant_skip (List.replicate idx .unit) vt [] idx
+  simp only [List.length_replicate] at hskip
+  have ht := dec_total (.enum (List.replicate idx .unit ++ [vt])) bs
+  unfold decEnumAt
+  cases hd : decVarint 32 bs with
+  | error e =>
+    simp only [dec, hd] at ht
+    exact ht
+  | ok x =>
+    obtain ⟨n, r0⟩ := x
+    by_cases hn : n = idx
+    · subst hn
+      simp only [dec, hd, hskip] at ht
+      simpa using ht
     · simp [hn]
 
 -- non-vacuity: a 5-byte discriminant (2^28 needs five varint bytes)
